@@ -309,6 +309,9 @@ def infer_node_name_map(
     # Pipeline of matching steps
     # Step 1: Exact matches for standard fields
     props_left = _match_exact(standard_fields, props_left, mapping)
+    # ... and for feature keys: a column spelled exactly like a feature key takes that
+    # key, so that it cannot collide with it as a custom property in step 5
+    props_left = _match_exact(list(node_features.keys()), props_left, mapping)
 
     # Step 2: Fuzzy matches for remaining standard fields
     props_left = _match_fuzzy(standard_fields, props_left, mapping)
